@@ -19,6 +19,7 @@ schema is its own implementer: `implementer_reports_self`); what holds is
 `introspect_implementer_partial`.
 -/
 import TrustfallModel.Proofs.SchemaAdapter
+import TrustfallModel.Proofs.SchemaExamples
 
 namespace TF.C20
 open TF TF.SchemaDoc
@@ -87,7 +88,7 @@ theorem implementer_reports_self {doc : Doc} {s : Schema} (h : Accepted doc s) {
   SchemaDoc.implementer_reports_self h.facts ht
 
 section Witness
-open TF.C19
+open TF.SchemaDoc.Examples
 
 /-- The documented statement "if this is not an interface type, this edge is guaranteed to be empty"
 is false of the code: in `schema { query: Q } type Q { a: A } type A { x: Int }` the object type `A`
@@ -106,7 +107,7 @@ theorem introspect_implementer_documented_false :
     | ok s =>
       have ha : Accepted small s := ⟨by decide, hs⟩
       let tA : TypeDef := { name := "A", isInterface := false, implements := [], fields := [⟨"x", intTy, []⟩] }
-      have hmem : tA ∈ Doc.types small := by decide
+      have hmem : tA ∈ Doc.types small := by simp [small, Doc.types, tyQ, tyA, tA]
       obtain ⟨ns, h1, h2⟩ := C20.implementer_reports_self ha hmem
       rw [hall small s ha tA hmem rfl] at h1
       cases h1; exact h2 rfl
@@ -146,7 +147,7 @@ theorem schema_adapter_honest {κ : Type} (ctxs : List (κ × Option Vertex)) :
 /-! ## Non-vacuity -/
 
 section NonVacuity
-open TF.C19
+open TF.SchemaDoc.Examples
 
 /-- Accepted documents exist (`rich`: interface chain, narrowed fields, parameters with defaults), … -/
 example : NoKnownSchemaTrigger rich = true ∧ accepts rich = true := by decide
